@@ -131,6 +131,169 @@ fn check_doc(ctx: &mut Ctx, schema: &Valid<Schema>, text: &str, family: &str) ->
 
 
 
+
+// ------------------------------------------------------------------------------------------------
+// c17.values: one argument of a field in an operation with variables — `validate_variable_usage`, then
+// `value_of_correct_type` with the operation's variable definitions (Model/ExecValues.lean on Model/ValueCheck.lean)
+// ------------------------------------------------------------------------------------------------
+#[derive(Clone, Debug)]
+enum XTy { Named(String), NonNullNamed(String), List(Box<XTy>), NonNullList(Box<XTy>) }
+impl XTy {
+    fn text(&self) -> String { match self { XTy::Named(n) => n.clone(), XTy::NonNullNamed(n) => format!("{n}!"), XTy::List(t) => format!("[{}]", t.text()), XTy::NonNullList(t) => format!("[{}]!", t.text()) } }
+    fn toks(&self) -> String { match self { XTy::Named(n) => format!("N {n}"), XTy::NonNullNamed(n) => format!("M {n}"), XTy::List(t) => format!("L {}", t.toks()), XTy::NonNullList(t) => format!("K {}", t.toks()) } }
+    fn nullable(&self) -> bool { matches!(self, XTy::Named(_) | XTy::List(_)) }
+}
+#[derive(Clone, Debug)]
+enum XVal { Int(String), Float(String), Str, Bool, Null, Enum(String), Var(String), List(Vec<XVal>), Obj(Vec<(String, XVal)>) }
+impl XVal {
+    fn text(&self) -> String {
+        match self {
+            XVal::Int(s) | XVal::Float(s) => s.clone(), XVal::Str => "\"s\"".into(), XVal::Bool => "true".into(), XVal::Null => "null".into(),
+            XVal::Enum(e) => e.clone(), XVal::Var(v) => format!("${v}"),
+            XVal::List(xs) => format!("[{}]", xs.iter().map(|x| x.text()).collect::<Vec<_>>().join(", ")),
+            XVal::Obj(fs) => format!("{{{}}}", fs.iter().map(|(n, x)| format!("{n}: {}", x.text())).collect::<Vec<_>>().join(", ")),
+        }
+    }
+    fn toks(&self) -> String {
+        match self {
+            XVal::Int(s) => format!("i {s}"),
+            XVal::Float(s) => format!("f {}", if s.parse::<f64>().is_ok_and(|f| f.is_finite()) { 1 } else { 0 }),
+            XVal::Str => "s".into(), XVal::Bool => "b".into(), XVal::Null => "n".into(),
+            XVal::Enum(e) => format!("e {e}"), XVal::Var(v) => format!("v {v}"),
+            XVal::List(xs) => format!("l {}{}", xs.len(), xs.iter().map(|x| format!(" {}", x.toks())).collect::<String>()),
+            XVal::Obj(fs) => format!("o {}{}", fs.len(), fs.iter().map(|(n, x)| format!(" {n} {}", x.toks())).collect::<String>()),
+        }
+    }
+}
+const X_ENV: &str = "scalar S\nenum E { A B }\ninput I { a: Int! b: String = \"x\" c: [I!] d: S e: E f: Int! = 1 g: [Int] }\ninput R { r: R x: ID }\ntype O { x: Int }\n";
+const X_ENV_ENC: &str = "S=S0;E=E:A+B;I=I:a/M Int/0+b/N String/1+c/L M I/0+d/N S/0+e/N E/0+f/M Int/1+g/L N Int/0;R=I:r/N R/0+x/N ID/0;O=O;Query=O";
+/// (name, type text, type tokens, default text, default code)
+const X_VARS: [(&str, &str, &str, &str, &str); 12] = [
+    ("x", "Int", "N Int", "", "a"), ("xn", "Int!", "M Int", "", "a"), ("xd", "Int", "N Int", " = 1", "v"), ("xz", "Int", "N Int", " = null", "n"),
+    ("l", "[Int]", "L N Int", "", "a"), ("ln", "[Int!]!", "K M Int", "", "a"), ("s", "S", "N S", "", "a"), ("e", "E", "N E", "", "a"),
+    ("i", "I", "N I", "", "a"), ("str", "String", "N String", "", "a"), ("id", "ID!", "M ID", "", "a"), ("ld", "[I!]", "L M I", " = []", "v"),
+];
+const X_KINDS: [&str; 9] = ["UnsupportedValueType", "IntCoercionError", "FloatCoercionError", "UndefinedEnumValue", "UndefinedVariable", "UniqueInputValue", "UndefinedInputValue", "RequiredField", "DisallowedVariableUsage"];
+
+fn xvalue_case(ctx: &mut Ctx, ty: &XTy, has_default: bool, v: &XVal) {
+    // a location default that is a valid constant of the type (the schema must validate)
+    let default = if has_default {
+        match ty {
+            XTy::Named(_) | XTy::List(_) => " = null",
+            XTy::NonNullList(_) => " = []",
+            XTy::NonNullNamed(n) => match n.as_str() {
+                "Int" => " = 0", "Float" => " = 1.5", "String" => " = \"s\"", "Boolean" => " = true", "ID" => " = \"i\"",
+                "E" => " = A", "S" => " = 1", "I" => " = { a: 1 }", "R" => " = {}", _ => return,
+            },
+        }
+    } else { "" };
+    let stext = format!("{X_ENV}type Query {{ f(a: {}{default}): Int }}\n", ty.text());
+    let Ok(Ok(schema)) = catch(|| Schema::parse_and_validate(stext.clone(), "s.graphql")) else { ctx.stat("values:schema-invalid"); return };
+    let vars: Vec<String> = X_VARS.iter().map(|(n, t, _, d, _)| format!("${n}: {t}{d}")).collect();
+    let text = format!("query({}) {{ f(a: {}) }}", vars.join(", "), v.text());
+    if ast::Document::parse(text.clone(), "d.graphql").is_err() { ctx.stat("values:syntax"); return; }
+    let out = match catch(|| match ExecutableDocument::parse_and_validate(&schema, text.clone(), "d.graphql") {
+        Ok(_) => vec![],
+        Err(e) => e.errors.iter().filter_map(|d| d.error.unstable_error_name()).filter(|n| X_KINDS.contains(n)).map(|n| n.to_string()).collect::<Vec<_>>(),
+    }) { Ok(mut k) => { k.sort(); if k.is_empty() { "ok".to_string() } else { k.join(",") } } Err(p) => { ctx.fail("panic", &text, &p); return } };
+    for k in out.split(',') { ctx.stat(&format!("values:{k}")); }
+    let venc: Vec<String> = X_VARS.iter().map(|(n, _, tt, _, dc)| format!("{n}/{tt}/{dc}")).collect();
+    ctx.case("c17.values", &[enc(X_ENV_ENC), enc(&venc.join("+")), enc(&ty.toks()), if has_default { "=1".into() } else { "=0".into() }, enc(&v.toks())], &out);
+    if out != "ok" { ctx.nontrivial(&format!("xv|{}|{}", ty.text(), out)); }
+}
+
+fn gen_xty(ctx: &mut Ctx, depth: usize) -> XTy {
+    let names = ["Int", "Float", "String", "Boolean", "ID", "S", "E", "I", "R", "O"];
+    if depth < 2 && ctx.rng.chance(1, 3) {
+        let inner = Box::new(gen_xty(ctx, depth + 1));
+        if ctx.rng.chance(1, 2) { XTy::List(inner) } else { XTy::NonNullList(inner) }
+    } else {
+        let n = if ctx.rng.chance(1, 14) { "O" } else { names[ctx.rng.below(names.len() - 1)] }.to_string();
+        if ctx.rng.chance(1, 2) { XTy::Named(n) } else { XTy::NonNullNamed(n) }
+    }
+}
+fn gen_xval(ctx: &mut Ctx, ty: Option<&XTy>, depth: usize) -> XVal {
+    if ctx.rng.chance(1, 5) { return XVal::Var(if ctx.rng.chance(1, 8) { "nope".to_string() } else { X_VARS[ctx.rng.below(X_VARS.len())].0.to_string() }); }
+    if let (Some(ty), true) = (ty, ctx.rng.chance(3, 4)) {
+        match ty {
+            XTy::List(t) | XTy::NonNullList(t) => {
+                if ctx.rng.chance(1, 8) { return XVal::Null; }
+                if ctx.rng.chance(1, 5) || depth > 3 { return gen_xval(ctx, Some(t), depth + 1); }
+                let n = ctx.rng.below(3);
+                return XVal::List((0..n).map(|_| gen_xval(ctx, Some(t), depth + 1)).collect());
+            }
+            XTy::Named(n) | XTy::NonNullNamed(n) => {
+                if ctx.rng.chance(1, 10) { return XVal::Null; }
+                return match n.as_str() {
+                    "Int" => XVal::Int(ctx.rng.pick(&["0", "-5", "2147483647", "2147483648"]).to_string()),
+                    "Float" => if ctx.rng.chance(1, 2) { XVal::Float(ctx.rng.pick(&["1.5", "1e309"]).to_string()) } else { XVal::Int("7".into()) },
+                    "String" => XVal::Str, "Boolean" => XVal::Bool, "ID" => if ctx.rng.chance(1, 2) { XVal::Str } else { XVal::Int("12".into()) },
+                    "E" => XVal::Enum(ctx.rng.pick(&["A", "B", "C"]).to_string()),
+                    "S" => gen_xval(ctx, None, depth + 1),
+                    "I" | "R" if depth <= 3 => {
+                        let l = |t: XTy| XTy::List(Box::new(t));
+                        let fields: Vec<(&str, XTy)> = if n == "I" {
+                            vec![("a", XTy::NonNullNamed("Int".into())), ("b", XTy::Named("String".into())), ("c", l(XTy::NonNullNamed("I".into()))), ("d", XTy::Named("S".into())), ("e", XTy::Named("E".into())), ("f", XTy::NonNullNamed("Int".into())), ("g", l(XTy::Named("Int".into())))]
+                        } else { vec![("r", XTy::Named("R".into())), ("x", XTy::Named("ID".into()))] };
+                        let mut fs: Vec<(String, XVal)> = vec![];
+                        for (fname, fty) in &fields {
+                            let required = !fty.nullable() && *fname != "f";
+                            if ctx.rng.chance(if required { 7 } else { 2 }, 8) { let v = gen_xval(ctx, Some(fty), depth + 1); fs.push((fname.to_string(), v)); }
+                        }
+                        if ctx.rng.chance(1, 10) { fs.push(("zz".into(), XVal::Int("1".into()))); }
+                        if ctx.rng.chance(1, 10) && !fs.is_empty() { let d = fs[ctx.rng.below(fs.len())].clone(); fs.push(d); }
+                        XVal::Obj(fs)
+                    }
+                    _ => XVal::Obj(vec![]),
+                };
+            }
+        }
+    }
+    match ctx.rng.below(if depth > 3 { 6 } else { 9 }) {
+        0 => XVal::Int(ctx.rng.pick(&["3", "2147483648"]).to_string()), 1 => XVal::Float("2.5".into()), 2 => XVal::Str, 3 => XVal::Bool, 4 => XVal::Null,
+        5 => XVal::Enum(ctx.rng.pick(&["A", "C"]).to_string()),
+        6 | 7 => { let n = ctx.rng.below(3); XVal::List((0..n).map(|_| gen_xval(ctx, None, depth + 1)).collect()) }
+        _ => { let n = ctx.rng.below(3); XVal::Obj((0..n).map(|_| (ctx.rng.pick(&["a", "b", "x"]).to_string(), gen_xval(ctx, None, depth + 1))).collect()) }
+    }
+}
+fn stream_values(ctx: &mut Ctx) {
+    let nm = |s: &str| XTy::Named(s.into());
+    let nn = |s: &str| XTy::NonNullNamed(s.into());
+    let var = |s: &str| XVal::Var(s.into());
+    let li = |t: XTy| XTy::List(Box::new(t));
+    // every variable of the pool directly at every kind of position, with and without a location default
+    for ty in [nm("Int"), nn("Int"), li(nm("Int")), li(nn("Int")), XTy::NonNullList(Box::new(nn("Int"))), nm("S"), nn("S"), nm("E"), nm("I"), nn("I"), li(nn("I")), nm("String"), nm("ID"), nn("ID"), nm("Float"), nm("O")] {
+        for (n, ..) in X_VARS.iter() { for hd in [false, true] { xvalue_case(ctx, &ty, hd, &var(n)); } }
+        xvalue_case(ctx, &ty, false, &var("nope"));
+        // … and inside a list / an input object
+        for (n, ..) in X_VARS.iter() { xvalue_case(ctx, &ty, false, &XVal::List(vec![var(n)])); xvalue_case(ctx, &ty, false, &XVal::Obj(vec![("a".into(), var(n)), ("c".into(), XVal::List(vec![XVal::Obj(vec![("a".into(), var(n))])]))])); }
+    }
+    // object literals: keys repeated / undefined / required ones missing or null — at input objects, at the custom
+    // scalar (where only uniqueness holds, at every depth), inside lists, with variables among the values
+    let int = |s: &str| XVal::Int(s.into());
+    let ob = |fs: Vec<(&str, XVal)>| XVal::Obj(fs.into_iter().map(|(k, v)| (k.to_string(), v)).collect());
+    let objs = vec![
+        ob(vec![]), ob(vec![("a", int("1"))]), ob(vec![("a", int("1")), ("a", int("2"))]), ob(vec![("a", int("1")), ("zz", int("2"))]),
+        ob(vec![("a", XVal::Null)]), ob(vec![("a", int("1")), ("f", XVal::Null)]), ob(vec![("b", XVal::Str)]),
+        ob(vec![("a", int("1")), ("b", XVal::Str), ("b", XVal::Str)]), ob(vec![("a", var("x")), ("a", var("nope"))]),
+        ob(vec![("a", int("1")), ("d", ob(vec![("k", int("1")), ("k", int("2"))]))]),
+        ob(vec![("a", int("1")), ("d", XVal::List(vec![ob(vec![("k", var("nope")), ("k", int("2"))])]))]),
+        ob(vec![("a", int("1")), ("c", XVal::List(vec![ob(vec![("a", int("1")), ("a", int("1"))]), ob(vec![("zz", int("1"))])]))]),
+        ob(vec![("r", ob(vec![("r", ob(vec![("x", int("1")), ("x", int("2"))]))]))]), ob(vec![("r", ob(vec![("y", int("1"))]))]),
+        XVal::List(vec![ob(vec![("k", int("1")), ("k", int("1"))])]), XVal::List(vec![XVal::List(vec![ob(vec![("k", var("x")), ("k", var("x"))])])]),
+    ];
+    for ty in [nm("I"), nn("I"), li(nn("I")), nm("R"), nm("S"), nn("S"), li(nm("S")), nm("Int"), nm("E"), nm("O")] {
+        for v in &objs { for hd in [false, true] { xvalue_case(ctx, &ty, hd, v); } }
+    }
+    let n = if ctx.thorough { 30_000 } else { 3_000 };
+    for _ in 0..n {
+        let ty = gen_xty(ctx, 0);
+        let v = gen_xval(ctx, Some(&ty), 0);
+        let hd = ctx.rng.chance(1, 4);
+        xvalue_case(ctx, &ty, hd, &v);
+    }
+}
+
 // ------------------------------------------------------------------------------------------------
 // c17.expand: the expansion of an operation's root selection set (inline fragments, spreads, each named
 // fragment once) — depth-first here, breadth-first with `seen_fragments` in the model of expand_selections
@@ -1421,6 +1584,7 @@ pub fn run(ctx: &mut Ctx) {
         check_doc(ctx, &any, t, "regression-custom-scalar-list");
     }
     corpus(ctx);
+    stream_values(ctx);
     stream_samevalue(ctx, &small);
     stream_shape(ctx);
     stream_subscription(ctx, &sub);
